@@ -340,6 +340,7 @@ func (g *gen) execInstr(fr *frame, cur *node, st *State, ins ssa.Instruction) *n
 	case *ssa.MakeClosure:
 		fr.vals[x] = app("obj", g.alloc(cur, st))
 		fr.closures[x] = x
+		g.closurePurity(fr, cur, st, x)
 	case *ssa.Slice:
 		g.execSlice(fr, cur, st, x)
 	case *ssa.Call:
@@ -919,4 +920,77 @@ func nonEscaping(a *ssa.Alloc) bool {
 		return true
 	}
 	return ok(a, 0)
+}
+
+// closurePurity: a closure whose contract is effectfree is a mathematical function of its
+// arguments (and of the captured state at creation time): its ensures clauses, universally
+// quantified over the parameters, become facts about apply<T>(closure, args).
+func (g *gen) closurePurity(fr *frame, n *node, st *State, mc *ssa.MakeClosure) {
+	fn := mc.Fn.(*ssa.Function)
+	fs := g.P.spec.Funcs[funcKey(fn)]
+	if fs == nil || !fs.Pure || fn.Signature.Results().Len() != 1 {
+		return
+	}
+	rt := fn.Signature.Results().At(0).Type()
+	var resName string
+	switch sortOf(rt) {
+	case "Bool":
+		resName = "Bool"
+	case "Int":
+		resName = "Int"
+	case "Str":
+		resName = "Str"
+	default:
+		return
+	}
+	e := &env{g: g, vars: map[string]binding{}, st: st, old: st, pkgPath: fs.PkgPath, imports: fs.Imports}
+	for i, fv := range fn.FreeVars {
+		e.vars[fv.Name()] = binding{g.val(fr, mc.Bindings[i]), xtOf(fv.Type())}
+	}
+	var binds, sorts, terms []string
+	self := fr.vals[mc].(string)
+	sorts = append(sorts, "Ref")
+	terms = append(terms, self)
+	for i, p := range fs.Params {
+		pt := fn.Signature.Params().At(i).Type()
+		srt := sortOf(pt)
+		if srt == "STRUCT" {
+			return
+		}
+		name := fmt.Sprintf("cp_%s_%d", p.Name, g.c.counter)
+		g.c.counter++
+		binds = append(binds, "("+name+" "+srt+")")
+		e.vars[p.Name] = binding{name, xtOf(pt)}
+		sorts = append(sorts, srt)
+		terms = append(terms, name)
+	}
+	apfn := "apply_" + sanitize(strings.Join(sorts[1:], "_")) + "_" + resName
+	g.c.declareFun(apfn, sorts, resName)
+	res := app(apfn, terms...)
+	if len(fs.Results) == 1 {
+		e.vars[fs.Results[0].Name] = binding{res, xtOf(rt)}
+	}
+	var pre, post []string
+	for _, c := range fs.Requires {
+		if t, err := e.trBool(c.E); err == nil {
+			pre = append(pre, t)
+		}
+	}
+	for _, c := range fs.Ensures {
+		t, err := e.trBool(c.E)
+		if err != nil {
+			g.errorf("%s: closure %s ensures [%s]: %v", g.name, fs.Key, c.Label, err)
+			return
+		}
+		post = append(post, t)
+	}
+	if len(post) == 0 {
+		return
+	}
+	body := implies(and(pre...), and(post...))
+	if len(binds) > 0 {
+		body = "(forall (" + strings.Join(binds, " ") + ") (! " + body + " :pattern (" + res + ")))"
+	}
+	n.assume(body)
+	g.used["verified:"+fs.Key] = true
 }
